@@ -6,7 +6,7 @@ From TR Require Import Lib.Base Model.Budget Model.Adaptive Proof.Adaptive.
 
 (* min <= limit <= max in every reachable state, for every feedback sequence (thread programs
    over record_success / record_failure / record_successes(n) / record_success(latency) /
-   limit()), every interleaving of the atomic steps (schedule entries, spurious
+   limit() / reset() -- [init0] is the configured initial limit reset() goes back to), every interleaving of the atomic steps (schedule entries, spurious
    compare_exchange_weak failures included), every decrease function [dec] (the f64
    computation), every smoothing and queue-estimate function of Vegas; also every value a
    limit() call returned is in bounds. [a_max c <= U64MAX] / [v_max c <= U64MAX] say that the
@@ -14,13 +14,13 @@ From TR Require Import Lib.Base Model.Budget Model.Adaptive Proof.Adaptive.
    does (AimdController: saturating_add / saturating_mul; Vegas::adjust_limit:
    saturating_add(1) since /repo 96e4b2b), so max = usize::MAX is inside the statement. *)
 Theorem C13_limit_in_bounds :
-  (forall (c : acfg) (dec : Z -> Z) (thr initial : Z) (progs : list (list ct_call))
+  (forall (c : acfg) (dec : Z -> Z) (thr init0 initial : Z) (progs : list (list ct_call))
           (sched : list (nat * bool)),
       a_min c <= a_max c -> a_max c <= U64MAX -> 0 <= a_inc c ->
       Forall (fun s => a_min c <= st_mem s LLim <= a_max c
                        /\ Forall (fun r => r_call r = CtLimit -> a_min c <= r_ret r <= a_max c)
                                  (st_log s))
-             (states (step (ct_prog c dec thr)) (init_state (ct_mem c initial) progs) sched))
+             (states (step (ct_prog c dec thr init0)) (init_state (ct_mem c initial) progs) sched))
   /\
   (forall (c : vcfg) (smooth : Z -> Z -> Z) (qest : Z -> Z -> Z -> Z) (initial : Z)
           (progs : list (list vg_call)) (sched : list (nat * bool)),
@@ -55,8 +55,9 @@ Print Assumptions C13_service_limit_in_bounds.
    in_flight = number of call futures created and not yet finished / failed / panicked /
    dropped ([sv_live]: one entry per such call), after every history of readiness checks,
    calls (also without a readiness check, also with a panicking inner.call()), polls,
-   completions (ok | err | panic), drops, clock advances, inner-readiness changes and feedback
-   reaching the shared algorithm from elsewhere *)
+   completions (ok | err | panic), drops, clock advances, inner-readiness changes, feedback
+   reaching the shared algorithm from elsewhere, and readiness checks / departures of parked
+   callers (clones with their own wakers) *)
 Theorem C13_inflight_exact :
   forall (A : alg) (a0 : ast) (evs : list sev),
     Forall (fun s => sv_inflight s = Z.of_nat (length (sv_live s))
@@ -140,6 +141,29 @@ Theorem C13_pending_when_at_limit_live :
            (states (sv_st A) (sv_init a0) evs).
 Proof. exact pending_when_at_limit_live. Qed.
 Print Assumptions C13_pending_when_at_limit_live.
+
+(* "never refuses readiness while fewer than limit calls are in flight" also means that a caller
+   parked by a refusal learns when capacity is free. Callers with a waker of their own ([EPark a]:
+   a clone of the service polled with caller a's waker): a check made at the limit wakes that
+   waker on the spot (the service re-polls instead of queueing), a check below the limit with a
+   ready inner service is admitted; and the wake is not lost: it survives every later event
+   except a new check by, or the departure of, that caller. For every algorithm and state. *)
+Theorem C13_parked_refusal_is_a_wake :
+  forall (A : alg) (s : svc) (a : nat),
+    let s' := fst (sv_step A s (EPark a)) in
+    snd (sv_step A s (EPark a)) = ready_code s
+    /\ (sv_limit s <= sv_inflight s -> snd (sv_step A s' (EWoken a)) = 91)
+    /\ (sv_inflight s < sv_limit s -> sv_inner s = 0 -> snd (sv_step A s (EPark a)) = 11).
+Proof. exact parked_refusal_is_a_wake. Qed.
+Print Assumptions C13_parked_refusal_is_a_wake.
+
+Theorem C13_woken_is_stable :
+  forall (A : alg) (s : svc) (e : sev) (a : nat),
+    e <> EPark a -> e <> EUnpark a ->
+    snd (sv_step A s (EWoken a)) = 91 ->
+    snd (sv_step A (sv_st A s e) (EWoken a)) = 91.
+Proof. exact woken_is_stable. Qed.
+Print Assumptions C13_woken_is_stable.
 
 (* the counter under threads (Model.Adaptive part (c): clones of one service on worker
    threads, every access to in_flight / current_limit / the controller's limit one atomic step,
